@@ -21,17 +21,12 @@ from .. import core, schema as S, sbeppc, mutate as M
 MODULE = 'Sbepp.Properties.C08'
 THEOREMS = [
     'Sbepp.Properties.C08.parseNum_spec',
+    'Sbepp.Properties.C08.C08_full',
     'Sbepp.Properties.C08.rejects_every_broken_schema',
     'Sbepp.Properties.C08.accepts_every_rule_abiding_schema',
-    'Sbepp.Properties.C08.check_ok_iff_rules_partial',
-    'Sbepp.Properties.C08.check_ok_iff_rules_partial_data',
-    'Sbepp.Properties.C08.check_ok_rules_partial',
     'Sbepp.Properties.C08.check_error_sound',
     'Sbepp.Properties.C08.check_error_sound_hash_order',
-    'Sbepp.Properties.C08.check_error_sound_partial',
     'Sbepp.Properties.C08.check_error_sound_cyclic',
-    'Sbepp.Properties.C08.C08_full_false',
-    'Sbepp.Properties.C08.C08_full_false_rejects_valid',
     'Sbepp.Properties.C08.accepted_no_overlap',
     'Sbepp.Properties.C08.accepted_members_in_block',
     'Sbepp.Properties.C08.cycle_detection_complete',
@@ -83,6 +78,7 @@ PATTERNS = [(c, re.compile(r)) for c, r in [
     ('headerElementArray', r"header element `.*` must be a non-array type"),
     ('headerElementConstant', r"header element `.*` cannot be a constant"),
     ('varDataLength', r"^data header element `.*` must have length equal to 0"),
+    ('dataHeaderLayout', r"^data header `.*` must consist of `length` at offset 0 directly followed by `varData`"),
     ('fieldConstantWithoutValueRef', r"^field constant must have `valueRef`"),
     ('compositeFieldConstant', r"^composite field can't be a constant"),
     ('enumConstantTypeMismatch', r"^enum constant type `.*` should match field type"),
